@@ -416,6 +416,18 @@ def _source(ck, p, rule="R-C09-source"):
                        "%s refreshes the document from the file on disk: with an unsaved buffer the diagnostics published afterwards are those of the disk content, not of the newest text the client sent" % key)
 
 
+def _scrutinee_is_option(f, pv, discr_op):
+    """is the value whose discriminant this switch tests an Option?"""
+    pl = place_of(discr_op)
+    if not pl:
+        return False
+    for (b2, si, kk, x) in pv.defs.get(pl[0], []):
+        if kk == "assign" and x["rv"]["k"] == "discr":
+            ty = f.local_tystr(x["rv"]["place"][0]) or ""
+            return "option::Option<" in ty or ty.startswith("Option<") or "Option<" in ty.split("Result<")[0]
+    return False
+
+
 LOSSY_OPT = {"filter", "and_then", "filter_map", "take_if", "xor", "zip", "then", "then_some", "ok", "ok_or"}
 
 
@@ -454,7 +466,7 @@ def _only_when_not_open(f, call_bb):
                     continue
                 body = new_async_helper(facts.load(), f.blocks[r[1]]["t"])
                 if body is None:
-                    if (inst_of(f.blocks[r[1]]["t"]) or "").startswith("harper_ls::") and not (inst_of(f.blocks[r[1]]["t"]) or "").endswith(("::update_document", "::update_document_from_file")):
+                    if _scrutinee_is_option(f, pv, t["discr"]) and (inst_of(f.blocks[r[1]]["t"]) or "").startswith("harper_ls::") and not (inst_of(f.blocks[r[1]]["t"]) or "").endswith(("::update_document", "::update_document_from_file")):
                         maybe = True
                     continue
                 bv = Prov(body)
